@@ -40,6 +40,8 @@ type Document struct {
 	tocConfig *TOCConfig
 	// 打开的文档中 styles.xml 关系原有的ID（保存时原样写回；为空表示使用 rId1）
 	stylesRelID string
+	// 解析期间主文档部件的原始字节（数学公式的内部XML按原样读回），解析结束后清空
+	parseSource []byte
 }
 
 // Body 表示文档主体
@@ -2027,6 +2029,8 @@ func (d *Document) parseDocument() error {
 	}
 
 	// 首先解析基本结构
+	d.parseSource = docData
+	defer func() { d.parseSource = nil }()
 	decoder := xml.NewDecoder(bytes.NewReader(docData))
 	for {
 		token, err := decoder.Token()
@@ -2128,8 +2132,8 @@ func (d *Document) parseBodyElement(decoder *xml.Decoder) error {
 func (d *Document) parseBodySubElement(decoder *xml.Decoder, startElement xml.StartElement) (interface{}, error) {
 	switch startElement.Name.Local {
 	case "p":
-		// 解析段落
-		return d.parseParagraph(decoder, startElement)
+		// 解析段落（含有数学公式的段落读回为 MathParagraph）
+		return d.parseBodyParagraph(decoder, startElement)
 	case "tbl":
 		// 解析表格
 		return d.parseTable(decoder, startElement)
@@ -2160,6 +2164,27 @@ func (d *Document) parseBodySubElement(decoder *xml.Decoder, startElement xml.St
 
 // parseParagraph 解析段落
 func (d *Document) parseParagraph(decoder *xml.Decoder, startElement xml.StartElement) (*Paragraph, error) {
+	return d.parseParagraphInto(decoder, nil)
+}
+
+// parseBodyParagraph 解析正文层级的段落。AddMathFormula 把公式写成带有 m:oMath / m:oMathPara
+// 子元素的 w:p；这样的段落读回为 MathParagraph，其余读回为普通段落
+func (d *Document) parseBodyParagraph(decoder *xml.Decoder, startElement xml.StartElement) (interface{}, error) {
+	formula := &MathParagraph{}
+	paragraph, err := d.parseParagraphInto(decoder, formula)
+	if err != nil {
+		return nil, err
+	}
+	if formula.Math == nil && formula.MathPara == nil {
+		return paragraph, nil
+	}
+	formula.Properties = paragraph.Properties
+	formula.Runs = paragraph.Runs
+	return formula, nil
+}
+
+// parseParagraphInto 解析段落内容；formula 不为 nil 时，段落中的数学公式记入 formula
+func (d *Document) parseParagraphInto(decoder *xml.Decoder, formula *MathParagraph) (*Paragraph, error) {
 	paragraph := &Paragraph{
 		Runs: make([]Run, 0),
 	}
@@ -2186,6 +2211,24 @@ func (d *Document) parseParagraph(decoder *xml.Decoder, startElement xml.StartEl
 				}
 				if run != nil {
 					paragraph.Runs = append(paragraph.Runs, *run)
+				}
+			case "oMath":
+				// 行内数学公式
+				math, err := d.parseOfficeMath(decoder, t)
+				if err != nil {
+					return nil, err
+				}
+				if formula != nil {
+					formula.Math = math
+				}
+			case "oMathPara":
+				// 块级数学公式
+				mathPara, err := d.parseOfficeMathPara(decoder, t)
+				if err != nil {
+					return nil, err
+				}
+				if formula != nil {
+					formula.MathPara = mathPara
 				}
 			default:
 				// 跳过其他元素
